@@ -192,7 +192,7 @@ def run(ctx):
     known = dict(C.load_known('C14'))
     qs = []
     gdir = L.dir
-    def add(name, text, desc, timeout=240, backend=None, defines=()):
+    def add(name, text, desc, timeout=900, backend=None, defines=()):
         hp = os.path.join(gdir, 'h_%s.c' % name)
         open(hp, 'w').write(text)
         qs.append(Query(name, L, hp, list(defines), unwind=15, timeout=timeout, desc=desc, backend=backend))
@@ -219,7 +219,7 @@ def run(ctx):
             add('%s_int' % name, gen_binop(name, sym, kind, ipairs), 'operator %s on %d pairs of {bool,int,unsigned,long,unsigned long}, symbolic type tags and values' % (sym, len(ipairs)), backend='cadical')
         quick_flt = ('lessThan', 'greaterThanEq', 'equal', 'notEqual', 'and', 'bitAnd', 'leftShift', 'mod')      # one or two operators of every kind in the quick tier
         if fpairs and kind in ('cmp', 'logic', 'bit', 'shl', 'shr', 'mod') and (thorough or name in quick_flt):
-            add('%s_flt' % name, gen_binop(name, sym, kind, fpairs), 'operator %s on the %d operand-type pairs involving float/double' % (sym, len(fpairs)), timeout=900 if thorough else 300, backend='cadical')
+            add('%s_flt' % name, gen_binop(name, sym, kind, fpairs), 'operator %s on the %d operand-type pairs involving float/double' % (sym, len(fpairs)), timeout=1500 if thorough else 900, backend='cadical')
     for (name, sym, kind) in UNA:
         types = [t[0] for t in split(name, [(t,) for t in INT + FLT])]
         add('%s_all' % name, gen_unop(name, sym, kind, types), 'unary %s on %s' % (sym, ', '.join(TYPES[t] for t in types)), backend='cadical')
@@ -232,7 +232,7 @@ def run(ctx):
     # short circuit of ?: (the real ternaryOpNode::evaluate with recording leaf doubles)
     try:
         Ls = C.lift(ctx, 'C14sc', os.path.join(H, 'wrap_sc.cpp'), ['s_ternary'], libocca=True, models=[os.path.join(H, 'models_sc.c')])
-        qsc = Query('ternary-short-circuit', Ls, os.path.join(H, 'h_sc.c'), [], unwind=6, timeout=300, backend='cadical', desc='c ? t : f on symbolic 64-bit operands: value, and which operands are evaluated')
+        qsc = Query('ternary-short-circuit', Ls, os.path.join(H, 'h_sc.c'), [], unwind=6, timeout=900, backend='cadical', desc='c ? t : f on symbolic 64-bit operands: value, and which operands are evaluated')
         qsc.no_ptr_overflow = True
         qs.append(qsc)
     except C.Inconclusive as ex_:
